@@ -809,6 +809,7 @@ func (lc *leaderController) write(ctx context.Context, requestSupplier func(offs
 	tracker := lc.quorumAckTracker
 	term := lc.term
 	lc.Unlock()
+	verifYield("leader.write.allocated", LeaderController(lc))
 	request := requestSupplier(newOffset)
 
 	lc.log.Debug("Append operation", slog.Any("req", request))
